@@ -63,6 +63,40 @@ Theorem never_crashes : forall dec_r dec_w server ops,
 Proof. exact never_crashes_proof. Qed.
 Print Assumptions never_crashes.
 
+(* ---- L1/L2: no byte escapes the tracer.  For ANY op list (any inner-conn errors, returned WITH or without bytes -
+   io.EOF with the last bytes, a deadline firing after part of the data -, short writes, Close, timer): the read
+   tracer has been fed exactly the chunks the inner Reads delivered, all of them, in order, and the write tracer
+   exactly what the caller handed to Write; on a fresh connection the tracers are where ONE error-free call on the
+   concatenation would have left them (with chunking_independent). *)
+Theorem all_bytes_traced : forall dec_r dec_w ops c c' rs,
+  conn_run dec_r dec_w c ops = Some (c', rs) ->
+  c_rd c' = fst (ft_feed dec_r (c_rd c) (read_chunks ops)) /\
+  c_wr c' = fst (ft_feed dec_w (c_wr c) (write_chunks ops)).
+Proof. exact all_bytes_traced_proof. Qed.
+Print Assumptions all_bytes_traced.
+
+Theorem all_bytes_traced_one_shot : forall dec_r dec_w server ops c' rs,
+  conn_run dec_r dec_w (conn_init server) ops = Some (c', rs) ->
+  c_rd c' = fst (ft_trace dec_r (ft_init server) (concat (read_chunks ops))) /\
+  c_wr c' = fst (ft_trace dec_w (ft_init (negb server)) (concat (write_chunks ops))).
+Proof. exact all_bytes_traced_one_shot_proof. Qed.
+Print Assumptions all_bytes_traced_one_shot.
+
+(* a Read returning bytes together with an error does first exactly what the same Read without the error does
+   (bytes through the frame tracer, completed frames to the stream layer), THEN acts on the error (nothing for a
+   timeout, cancelAll otherwise); the caller gets both *)
+Theorem read_error_after_tracing : forall dec_r dec_w c data e,
+  conn_op dec_r dec_w c (ORead data e) =
+  match conn_op dec_r dec_w c (ORead data 0) with
+  | None => None
+  | Some (c1, _) =>
+    if read_fatal e
+    then match cancel_conn c1 with None => None | Some c2 => Some (c2, RRead data e) end
+    else Some (c1, RRead data e)
+  end.
+Proof. exact read_error_after_tracing_proof. Qed.
+Print Assumptions read_error_after_tracing.
+
 (* ---- L3: attribution.  For ALL lists of decoded frames (any number of concurrent streams, any interleaving,
    well-formed or not): the traces stream s completes, and the state it is left in, are those of the run that
    sees only the frames concerning s (its own frames and GOAWAYs): the trace is a function of the projection
@@ -317,3 +351,10 @@ Proof.
   intros es fields I. cbn in I.
   repeat (destruct I as [I|I]; [inversion I; subst; reflexivity|]). destruct I.
 Qed.
+(* a read that delivers the rest of a frame together with io.EOF: the frame is still traced *)
+Example ex_bytes_with_eof :
+  match conn_run ex_dec ex_dec (conn_init true) [ORead preface 0; ORead (firstn 4 ex_frame) 2; ORead (skipn 4 ex_frame) 1] with
+  | Some (c, _) => map (fun t => (t_name t, t_err t)) (r_out (c_rc c)) = [([97], EOther)] /\ f_broken (c_rd c) = false
+  | None => False
+  end.
+Proof. vm_compute. split; reflexivity. Qed.
